@@ -87,7 +87,7 @@ func GosymH_C13_async() {
 	nops := gosym_Param("ops", 2)
 	for op := 0; op < nops; op++ {
 		tag := string(rune('0' + op))
-		kc.drainTo(2, "before-op"+tag)
+		kc.drainTo(1, "before-op"+tag) // one write may stay in flight; an operation starts at most three more (limit: 4)
 		if op == 0 || gosym_Fork("write"+tag) {
 			off := gosym_Choice("off"+tag, 3)
 			ln := 1 + gosym_Choice("len"+tag, 3)
